@@ -172,11 +172,12 @@ def scope(run, thorough):
     compare(run, 'matches_path', 'matches_path', py, cases, (tok_s, tok_s), lambda a, r: ('mp', r, a[1] == '/', a[0] == a[1], a[0].startswith(a[1])),
             exhaustive=True)
     import os
-    ws2 = list(words('/.a', 4))
+    ws2 = [w for w in words('/.a', 4) if not w.startswith('-')]
     cwds = ['/', '/a', '/a/b', '//a']
 
     def pys(c, a):
-        return tok_s(os.path.normpath(os.path.join(c + os.path.sep, a)))
+        from trashcli.restore.restore_arg_parser import RestoreArgParser
+        return tok_s(RestoreArgParser().parse_restore_args(['trash-restore'] + ([a] if a else []), c).path)
     compare(run, 'restore_scope', 'restore_scope', pys, [(c, a) for c in cwds for a in ws2], (tok_s, tok_s), lambda a, r: ('rs', r), exhaustive=True)
 
 
